@@ -30,7 +30,7 @@
 (* function of the emission set, and for commutative reducers of the       *)
 (* payload bag alone (invariance under re-keying).                         *)
 (***************************************************************************)
-EXTENDS Naturals, Sequences, FiniteSets, TLC
+EXTENDS Naturals, Sequences, FiniteSets, TLC, SequencesExt, FiniteSetsExt, Bitwise
 
 CONSTANTS Channels,      \* set of naturals
           None           \* model value
@@ -55,69 +55,68 @@ MaxOf(a, b) == IF a < b THEN b ELSE a
 
 \* Lexicographic "less" on sequences of naturals; a proper prefix is smaller (Rust's Ord on
 \* [u8] / Vec<u8>; on equal-length sequences: EmitKey's field-by-field comparison).
+\* (LongestCommonPrefix, FoldLeft, FoldSet, SetToSeq, SortSeq and the Bitwise operators are evaluated
+\* by TLC's Java implementations; the declarative oracle below does not use the Bitwise module.)
 LexLess(a, b) ==
-  \E i \in 1..(MinOf(Len(a), Len(b)) + 1) :
-     /\ \A j \in 1..(i - 1) : a[j] = b[j]
-     /\ \/ i > Len(a) /\ i <= Len(b)
-        \/ i <= Len(a) /\ i <= Len(b) /\ a[i] < b[i]
+  LET n == Len(LongestCommonPrefix({a, b}))
+  IN IF n = Len(a) THEN n < Len(b)
+     ELSE IF n = Len(b) THEN FALSE
+     ELSE a[n + 1] < b[n + 1]
 
 KeyLess(a, b) == LexLess(a, b)
 
 \* The keys of a BTreeMap in iteration order.
-KeySeq(K) == [i \in 1..Cardinality(K) |-> CHOOSE k \in K : Cardinality({j \in K : KeyLess(j, k)}) = i - 1]
+KeySeq(K) == SortSeq(SetToSeq(K), KeyLess)
 
 \* ascending sequence of a finite set of naturals
-NatSeq(S) == [i \in 1..Cardinality(S) |-> CHOOSE c \in S : Cardinality({d \in S : d < c}) = i - 1]
+NatSeq(S) == SortSeq(SetToSeq(S), LAMBDA x, y : x < y)
 
-FoldSeq(Op(_, _), base, s) ==
-  LET f[i \in 0..Len(s)] == IF i = 0 THEN base ELSE Op(f[i - 1], s[i]) IN f[Len(s)]
-
-FlattenSeq(ss) == FoldSeq(LAMBDA acc, x : acc \o x, <<>>, ss)
+ConcatAll(ss) == FoldLeft(LAMBDA acc, x : acc \o x, <<>>, ss)
 
 -----------------------------------------------------------------------------
 (* bytes *)
 
 Bit(x, j) == (x \div (2 ^ j)) % 2
-ByteOf(bits) == LET f[j \in 0..8] == IF j = 0 THEN 0 ELSE f[j - 1] + bits[j - 1] * (2 ^ (j - 1)) IN f[8]
-OrByte(a, b)  == ByteOf([j \in 0..7 |-> IF Bit(a, j) = 1 \/ Bit(b, j) = 1 THEN 1 ELSE 0])
-AndByte(a, b) == ByteOf([j \in 0..7 |-> IF Bit(a, j) = 1 /\ Bit(b, j) = 1 THEN 1 ELSE 0])
+ByteOf(bits) == bits[0] + 2 * bits[1] + 4 * bits[2] + 8 * bits[3] + 16 * bits[4] + 32 * bits[5] + 64 * bits[6] + 128 * bits[7]
 At(v, i) == IF i <= Len(v) THEN v[i] ELSE 0           \* a.get(i).copied().unwrap_or(0)
 LE32(n) == <<n % 256, (n \div 256) % 256, (n \div 65536) % 256, (n \div 16777216) % 256>>
+\* forces a sequence-valued function expression into an explicit tuple (evaluation cost only)
+Tup(s) == SubSeq(s, 1, Len(s))
 
 \* Sum: each value is read as a little-endian u64 - shorter values zero-padded, longer truncated.
-U64(v) == [i \in 1..8 |-> At(v, i)]
-Zero64 == [i \in 1..8 |-> 0]
+U64(v) == <<At(v, 1), At(v, 2), At(v, 3), At(v, 4), At(v, 5), At(v, 6), At(v, 7), At(v, 8)>>
+Zero64 == <<0, 0, 0, 0, 0, 0, 0, 0>>
 \* u64::wrapping_add on little-endian byte sequences (ripple carry, carry out of byte 8 dropped)
 Add64(a, b) ==
-  LET c[i \in 0..8] == IF i = 0 THEN 0 ELSE (a[i] + b[i] + c[i - 1]) \div 256
-  IN [i \in 1..8 |-> (a[i] + b[i] + c[i - 1]) % 256]
+  LET r == FoldLeft(LAMBDA st, i : <<Append(st[1], (a[i] + b[i] + st[2]) % 256), (a[i] + b[i] + st[2]) \div 256>>,
+                    <<<<>>, 0>>, <<1, 2, 3, 4, 5, 6, 7, 8>>)
+  IN r[1]
 
 \* fn bitwise_or: length = max, shorter operand zero-padded on the right
-BitwiseOr(a, b)  == [i \in 1..MaxOf(Len(a), Len(b)) |-> OrByte(At(a, i), At(b, i))]
+BitwiseOr(a, b)  == Tup([i \in 1..MaxOf(Len(a), Len(b)) |-> At(a, i) | At(b, i)])
 \* fn bitwise_and: length = min (truncation)
-BitwiseAnd(a, b) == [i \in 1..MinOf(Len(a), Len(b)) |-> AndByte(a[i], b[i])]
+BitwiseAnd(a, b) == Tup([i \in 1..MinOf(Len(a), Len(b)) |-> a[i] & b[i]])
 
 -----------------------------------------------------------------------------
 (* ReduceOp::apply, values given in EmitKey order *)
 
 ReduceApply(op, vals) ==
   IF Len(vals) = 0 THEN (IF op = "Sum" THEN Zero64 ELSE <<>>)
-  ELSE CASE op = "Sum"    -> FoldSeq(LAMBDA acc, v : Add64(acc, U64(v)), Zero64, vals)
+  ELSE CASE op = "Sum"    -> FoldLeft(LAMBDA acc, v : Add64(acc, U64(v)), Zero64, vals)
          \* Iterator::max keeps the later of two equal elements, min the earlier one
-         [] op = "Max"    -> FoldSeq(LAMBDA acc, v : IF LexLess(v, acc) THEN acc ELSE v, vals[1], Tail(vals))
-         [] op = "Min"    -> FoldSeq(LAMBDA acc, v : IF LexLess(v, acc) THEN v ELSE acc, vals[1], Tail(vals))
-         [] op = "BitOr"  -> FoldSeq(BitwiseOr, vals[1], Tail(vals))
-         [] op = "BitAnd" -> FoldSeq(BitwiseAnd, vals[1], Tail(vals))
+         [] op = "Max"    -> FoldLeft(LAMBDA acc, v : IF LexLess(v, acc) THEN acc ELSE v, vals[1], Tail(vals))
+         [] op = "Min"    -> FoldLeft(LAMBDA acc, v : IF LexLess(v, acc) THEN v ELSE acc, vals[1], Tail(vals))
+         [] op = "BitOr"  -> FoldLeft(BitwiseOr, vals[1], Tail(vals))
+         [] op = "BitAnd" -> FoldLeft(BitwiseAnd, vals[1], Tail(vals))
          [] op = "First"  -> vals[1]
          [] op = "Last"   -> vals[Len(vals)]
-         [] op = "Concat" -> FlattenSeq(vals)
+         [] op = "Concat" -> ConcatAll(vals)
 
 \* MaterializationBus::finalize_channel. f : emit key -> payload (non-empty in every reachable state).
 \* Result: [ok |-> TRUE, data |-> bytes] or [ok |-> FALSE, count |-> n, kind |-> ...].
 FinalizeChannel(p, f) ==
-  LET ks   == KeySeq(DOMAIN f)
-      vals == [i \in 1..Len(ks) |-> f[ks[i]]]
-  IN CASE p = "Log" -> [ok |-> TRUE, data |-> FlattenSeq([i \in 1..Len(vals) |-> LE32(Len(vals[i])) \o vals[i]])]
+  LET vals == FoldLeft(LAMBDA acc, k : Append(acc, f[k]), <<>>, KeySeq(DOMAIN f))     \* emissions.values()
+  IN CASE p = "Log" -> [ok |-> TRUE, data |-> FoldLeft(LAMBDA acc, v : acc \o LE32(Len(v)) \o v, <<>>, vals)]
        [] p = "StrictSingle" ->
             IF Len(vals) > 1 THEN [ok |-> FALSE, count |-> Len(vals), kind |-> "StrictSingleConflict"]
             ELSE [ok |-> TRUE, data |-> IF Len(vals) = 0 THEN <<>> ELSE vals[1]]
@@ -127,12 +126,11 @@ PolicyOf(pol, ch) == IF ch \in DOMAIN pol THEN pol[ch] ELSE "Log"      \* unwrap
 
 \* MaterializationBus::finalize: channels in ChannelId order, partitioned into successes and errors.
 FinalizeReport(pol, pend) ==
-  LET cs  == NatSeq(DOMAIN pend)
-      res == [i \in 1..Len(cs) |-> FinalizeChannel(PolicyOf(pol, cs[i]), pend[cs[i]])]
-      okI == SelectSeq([i \in 1..Len(cs) |-> i], LAMBDA i : res[i].ok)
-      erI == SelectSeq([i \in 1..Len(cs) |-> i], LAMBDA i : ~res[i].ok)
-  IN [channels |-> [j \in 1..Len(okI) |-> [ch |-> cs[okI[j]], data |-> res[okI[j]].data]],
-      errors   |-> [j \in 1..Len(erI) |-> [ch |-> cs[erI[j]], count |-> res[erI[j]].count, kind |-> res[erI[j]].kind]]]
+  FoldLeft(LAMBDA rep, c :
+             LET r == FinalizeChannel(PolicyOf(pol, c), pend[c])
+             IN IF r.ok THEN [rep EXCEPT !.channels = Append(@, [ch |-> c, data |-> r.data])]
+                ELSE [rep EXCEPT !.errors = Append(@, [ch |-> c, count |-> r.count, kind |-> r.kind])],
+           [channels |-> <<>>, errors |-> <<>>], NatSeq(DOMAIN pend))
 
 -----------------------------------------------------------------------------
 (* actions *)
@@ -185,9 +183,7 @@ AcceptedSet(h) ==
 
 HasRepeat(h) == \E i, j \in 1..Len(h) : i < j /\ h[i].ch = h[j].ch /\ h[i].key = h[j].key
 
-SumNat(S, F(_)) ==
-  LET f[T \in SUBSET S] == IF T = {} THEN 0 ELSE LET x == CHOOSE y \in T : TRUE IN F(x) + f[T \ {x}]
-  IN f[S]
+SumNat(S, F(_)) == FoldSet(LAMBDA x, acc : acc + F(x), 0, S)
 
 \* Bag of payloads of a set of emissions of one channel: payload -> multiplicity. Keys are gone.
 PayloadBag(Ec) == [d \in {e.data : e \in Ec} |-> Cardinality({e \in Ec : e.data = d})]
@@ -197,17 +193,17 @@ OracleCommutative(op, B) ==
   LET D == DOMAIN B
   IN CASE op = "Sum" ->
             \* column sums with multiplicity, then one carry propagation
-            LET col[i \in 1..8]  == SumNat(D, LAMBDA d : B[d] * At(d, i))
-                car[i \in 0..8]  == IF i = 0 THEN 0 ELSE (col[i] + car[i - 1]) \div 256
-            IN [i \in 1..8 |-> (col[i] + car[i - 1]) % 256]
+            LET col == Tup([i \in 1..8 |-> SumNat(D, LAMBDA d : B[d] * At(d, i))])
+                r   == FoldLeft(LAMBDA st, c : <<Append(st[1], (c + st[2]) % 256), (c + st[2]) \div 256>>, <<<<>>, 0>>, col)
+            IN r[1]
        [] op = "Max"    -> CHOOSE m \in D : \A d \in D : ~LexLess(m, d)
        [] op = "Min"    -> CHOOSE m \in D : \A d \in D : ~LexLess(d, m)
        [] op = "BitOr"  ->
             LET n == CHOOSE k \in {Len(d) : d \in D} : \A d \in D : Len(d) <= k
-            IN [i \in 1..n |-> ByteOf([j \in 0..7 |-> IF \E d \in D : Bit(At(d, i), j) = 1 THEN 1 ELSE 0])]
+            IN Tup([i \in 1..n |-> ByteOf([j \in 0..7 |-> IF \E d \in D : Bit(At(d, i), j) = 1 THEN 1 ELSE 0])])
        [] op = "BitAnd" ->
             LET n == CHOOSE k \in {Len(d) : d \in D} : \A d \in D : Len(d) >= k
-            IN [i \in 1..n |-> ByteOf([j \in 0..7 |-> IF \A d \in D : Bit(d[i], j) = 1 THEN 1 ELSE 0])]
+            IN Tup([i \in 1..n |-> ByteOf([j \in 0..7 |-> IF \A d \in D : Bit(d[i], j) = 1 THEN 1 ELSE 0])])
 
 \* Key-ordered concatenation without building a sorted sequence: smallest key first, then the rest.
 ConcatByKey(Ec, Enc(_)) ==
@@ -229,12 +225,11 @@ OracleChannel(p, Ec) ==
          ELSE [ok |-> TRUE, data |-> (CHOOSE e \in Ec : TRUE).data]
 
 OracleReport(pol, E) ==
-  LET C      == {e.ch : e \in E}
-      R(c)   == OracleChannel(PolicyOf(pol, c), {e \in E : e.ch = c})
-      okC    == NatSeq({c \in C : R(c).ok})
-      erC    == NatSeq({c \in C : ~R(c).ok})
-  IN [channels |-> [j \in 1..Len(okC) |-> [ch |-> okC[j], data |-> R(okC[j]).data]],
-      errors   |-> [j \in 1..Len(erC) |-> [ch |-> erC[j], count |-> R(erC[j]).count, kind |-> R(erC[j]).kind]]]
+  LET R   == [c \in {e.ch : e \in E} |-> OracleChannel(PolicyOf(pol, c), {e \in E : e.ch = c})]
+      okC == NatSeq({c \in DOMAIN R : R[c].ok})
+      erC == NatSeq({c \in DOMAIN R : ~R[c].ok})
+  IN [channels |-> Tup([j \in 1..Len(okC) |-> [ch |-> okC[j], data |-> R[okC[j]].data]]),
+      errors   |-> Tup([j \in 1..Len(erC) |-> [ch |-> erC[j], count |-> R[erC[j]].count, kind |-> R[erC[j]].kind]])]
 
 \* pending as a set of emissions
 PendingSet(pend) == UNION {{[ch |-> c, key |-> k, data |-> pend[c][k]] : k \in DOMAIN pend[c]} : c \in DOMAIN pend}
@@ -277,11 +272,10 @@ Inv_ReportPartition ==
 RekeyDirect ==
   \A c \in DOMAIN pending :
      PolicyOf(policies, c) \in Commutative =>
-        LET ks   == KeySeq(DOMAIN pending[c])
-            vals == [i \in 1..Len(ks) |-> pending[c][ks[i]]]
+        LET vals == FoldLeft(LAMBDA acc, k : Append(acc, pending[c][k]), <<>>, KeySeq(DOMAIN pending[c]))
             base == ReduceApply(PolicyOf(policies, c), vals)
-        IN \A pi \in Permutations(1..Len(ks)) :
-              ReduceApply(PolicyOf(policies, c), [i \in 1..Len(ks) |-> vals[pi[i]]]) = base
+        IN \A pi \in Permutations(1..Len(vals)) :
+              ReduceApply(PolicyOf(policies, c), Tup([i \in 1..Len(vals) |-> vals[pi[i]]])) = base
 
 \* (6) action property: a rejected emit leaves the bus exactly as it was (not merged, not replaced)
 RejectedEmitChangesNothing ==
